@@ -35,7 +35,9 @@ NoFault == "none"
 \*              ID is not of its sender's domain; the whole room then carries that room ID), everything built on
 \*              it being consistent.  A create event is allowed by the create rules alone.
 CreateFaults == {"create_prevs", "create_domain"}
-FaultKinds == {"badsig", "disallowed", "missing", "wrongroom", "nonstate", "dup", "malformed"} \cup CreateFaults
+\* statedrop  - (send_join) the event is left out of the STATE list only: the auth chain still carries it, the
+\*              returned state lacks its (type, state_key)
+FaultKinds == {"badsig", "disallowed", "missing", "wrongroom", "nonstate", "dup", "malformed", "statedrop"} \cup CreateFaults
 ProvKinds == {"returns", "nothing", "errors"}
 
 (***************************************************************************)
